@@ -519,6 +519,9 @@ def sym_finalizer(vc):
                     raise PyExc(lib.ExcV('TypeError', ("unsupported operand type(s) for %: 'str' and 'NoneType'",)))
                 cb.apply = apply
             fin = it.call(F, [cb])
+            # the same finalizer object may sit in a flow that is run again (or in two flows): once per RUN, not once per object
+            from contracts.common import havoc_mutable_scalars
+            havoc_mutable_scalars(it, fin, containers=True)
             # the base class iterator is under its own contract (C01): here an opaque stream of resources
             base_stream = Stream('base_res_iter', lambda it_: mk_resource(it_, 'r'), may_raise=True)
             dsp = it.module('dataflows.base.datastream_processor').attrs['DataStreamProcessor']
